@@ -8,9 +8,15 @@ Direct oracle (real binary): every generated diff is rendered plain and under se
 colourings in several rendering modes; stdout must be byte-identical.  Moved-line colours (an SGR
 rendition other than git's plain red/green on a +/- line) must be shown with exactly that
 rendition (decoded with the independent SGR interpreter below), or with the style `--map-styles`
-assigns; raw-styled elements keep the input colouring.
+assigns; raw-styled elements keep the input colouring.  The same pairs are also run under gitconfigs
+that set color.diff.old / color.diff.new (three sources), with the input coloured with git's built-in
+red/green and with the configured colours: both are plain removed/added colouring and must be ignored,
+every other colour kept.  The model of the callers of `maybe_raw_line` (which styles count as ordinary,
+per line kind and gitconfig: `Ansi.hunkLineKeepsRaw`) is compared with the binary (`corr_raw_callers`).
 """
+import os
 import re
+import threading
 
 from ..core import hx, unhx, parallel_map, sha
 
@@ -601,9 +607,11 @@ def sgr(p):
     return ESC + "[" + p + "m"
 
 
-def colour_rows(rows, scheme, rng):
-    """git-style colourings with git's default palette. `scheme`: per-line | per-marker | per-word |
-    reset0 | ws-error. Context lines are never coloured (color.diff.context = normal)."""
+def colour_rows(rows, scheme, rng, cols=("31", "32")):
+    """git-style colourings with git's default palette (`cols` = the SGR parameters of removed / added
+    lines: git's built-in 31 / 32, or what git emits for a configured color.diff.old / new). `scheme`:
+    per-line | per-marker | per-word | reset0 | ws-error. Context lines are never coloured
+    (color.diff.context = normal)."""
     reset = sgr("0") if scheme == "reset0" else sgr("")
     out = []
     for kind, text in rows:
@@ -615,7 +623,7 @@ def colour_rows(rows, scheme, rng):
             i = text.index(" @@") + 3
             out.append(sgr("36") + text[:i] + reset + text[i:])
         elif kind in ("-", "+"):
-            col = "31" if kind == "-" else "32"
+            col = cols[0] if kind == "-" else cols[1]
             if scheme == "per-line" or scheme == "reset0":
                 out.append(sgr(col) + kind + text + reset)
             elif scheme == "per-marker":
@@ -657,7 +665,10 @@ RAW_MODES = [["--file-style", "raw", "--file-decoration-style", "none", "--hunk-
              ["--minus-style", "raw", "--plus-style", "raw", "--inspect-raw-lines", "false"],
              ["--minus-style", "raw", "--plus-style", "raw", "--zero-style", "raw", "--inspect-raw-lines", "true"],
              ["--minus-style", "raw", "--plus-style", "raw", "--zero-style", "raw", "--inspect-raw-lines", "false",
-              "--side-by-side", "--width", "120"]]
+              "--side-by-side", "--width", "120"],
+             # one side only: each caller of maybe_raw_line passes the is_raw of its own style
+             ["--minus-style", "raw", "--inspect-raw-lines", "false"], ["--plus-style", "raw", "--inspect-raw-lines", "false"],
+             ["--minus-style", "raw"], ["--plus-style", "raw", "--line-numbers"]]
 TRUNC_MODE = ["--max-line-length", "50"]
 
 
@@ -670,9 +681,65 @@ def strip_py(b):
     return OSC_RE.sub(b"", CSI_RE.sub(b"", b))
 
 
-def run_pair(ctx, args, plain, coloured):
-    a = ctx.run_delta(["--no-gitconfig"] + args, enc_lines(plain))
-    b = ctx.run_delta(["--no-gitconfig"] + args, enc_lines(coloured))
+# ---- gitconfigs that customise git's own colours (color.diff.old / color.diff.new)
+#
+# (value as written in the gitconfig, SGR parameters git emits for it: attributes in numeric order, then
+# foreground, then background - git's color.c, the same table as delta's GIT_STYLE_STRING_EXAMPLES)
+GIT_COLOURS = [("red bold", "1;31"), ("green bold", "1;32"), ("bold red", "1;31"), ("magenta", "35"), ("brightred", "91"),
+               ("brightgreen", "92"), ("yellow", "33"), ("red reverse", "7;31"), ("ul green", "4;32"), ("214", "38;5;214"),
+               ("#ff8000", "38;2;255;128;0"), ("red black", "31;40"), ("green #002800", "32;48;2;0;40;0"), ("bold 1", "1;31"),
+               ("1", "31"), ("green", "32"), ("dim green", "2;32"), ("italic cyan", "3;36"), ("red strike", "9;31"),
+               ("bold #aabbcc ul 19 strike", "1;4;9;38;2;170;187;204;48;5;19"), ("blue", "34"), ("green red", "32;41")]
+GIT_SGR_OF = dict(GIT_COLOURS)
+GIT_SOURCES = ["file", "file", "repo", "home"]
+_CFG_LOCK = threading.Lock()
+
+
+def write_once(path, text):
+    """Atomic, idempotent (cases run concurrently, and several checks may run at once)."""
+    if not os.path.exists(path):
+        os.makedirs(os.path.dirname(path), exist_ok=True)
+        tmp = f"{path}.{os.getpid()}.{threading.get_ident()}.tmp"
+        with open(tmp, "w", encoding="utf-8") as f:
+            f.write(text)
+        os.replace(tmp, path)
+    return path
+
+
+def git_colours_invocation(git):
+    """`git` = dict(old=<git colour string>|None, new=…|None, source=file|env|home) -> (args, env, cwd):
+    how delta gets to see that configuration. file: `--config FILE`; repo: the .git/config of the repository
+    delta is started in; home: ~/.gitconfig, delta started outside any repository. (GIT_CONFIG_PARAMETERS, i.e.
+    `git -c color.diff.old=…`, is not a source: delta reads only `delta.*` keys from it.)"""
+    if not git:
+        return ["--no-gitconfig"], {}, None
+    items = [(k, git.get(k)) for k in ("old", "new") if git.get(k)]
+    text = '[color "diff"]\n' + "".join('\t%s = "%s"\n' % (k, v.replace('"', '\\"')) for k, v in items)
+    base = os.path.join("/tmp", "verif-c08-gitcfg")
+    src = git.get("source", "file")
+    if src == "repo":   # the repository's own .git/config, delta started inside the work tree, nothing in ~
+        root = os.path.join(base, "repo-" + sha(text)[:12])
+        for d in ("objects", "refs/heads"):
+            os.makedirs(os.path.join(root, ".git", d), exist_ok=True)
+        write_once(os.path.join(root, ".git", "HEAD"), "ref: refs/heads/main\n")
+        write_once(os.path.join(root, ".git", "config"), "[core]\n\trepositoryformatversion = 0\n\tbare = false\n" + text)
+        os.makedirs(os.path.join(root, "sub"), exist_ok=True)
+        return [], {"HOME": os.path.join(base, "nohome"), "XDG_CONFIG_HOME": os.path.join(base, "nohome", ".config")}, os.path.join(root, "sub")
+    if src == "home":
+        home = os.path.join(base, "home-" + sha(text)[:12])
+        write_once(os.path.join(home, ".gitconfig"), text)
+        return [], {"HOME": home, "XDG_CONFIG_HOME": os.path.join(home, ".config")}, home
+    return ["--config", write_once(os.path.join(base, sha(text)[:12] + ".gitconfig"), text)], {}, None
+
+
+def git_tag(git):
+    return "" if not git else "old=%s,new=%s,%s" % (git.get("old"), git.get("new"), git.get("source", "file"))
+
+
+def run_pair(ctx, args, plain, coloured, git=None):
+    cfg, env, cwd = git_colours_invocation(git)
+    a = ctx.run_delta(cfg + args, enc_lines(plain), env=env, cwd=cwd)
+    b = ctx.run_delta(cfg + args, enc_lines(coloured), env=env, cwd=cwd)
     return a, b
 
 
@@ -707,17 +774,28 @@ def raw_kinds_of_mode(ctx, mode):
 
 
 def binary_case_default(ctx, rep, case):
-    """stdout(coloured) == stdout(plain) in a non-raw mode. `case`: rows, scheme, mode, colour seed."""
+    """stdout(coloured) == stdout(plain) in a non-raw mode. `case`: rows, scheme, mode, colour seed; with
+    `git` (a gitconfig that sets color.diff.old / new, see git_colours_invocation) both runs see that
+    configuration and `input` says whether the diff is coloured with git's built-in red/green ("default":
+    it was produced where that configuration was not in force) or with the configured colours ("configured":
+    what git emits when delta is its pager) - either is git's plain removed/added colouring and is ignored."""
     import random
     rows = [tuple(r) for r in case["rows"]]
     plain = [k + t if k in (" ", "-", "+") else t for k, t in rows]
-    coloured = colour_rows(rows, case["scheme"], random.Random(case["cseed"]))
-    (rc1, o1, e1), (rc2, o2, e2) = run_pair(ctx, case["mode"], plain, coloured)
+    git = case.get("git")
+    cols = ("31", "32")
+    if git and case.get("input") == "configured":
+        cols = (GIT_SGR_OF[git["old"]] if git.get("old") else "31", GIT_SGR_OF[git["new"]] if git.get("new") else "32")
+    coloured = colour_rows(rows, case["scheme"], random.Random(case["cseed"]), cols)
+    (rc1, o1, e1), (rc2, o2, e2) = run_pair(ctx, case["mode"], plain, coloured, git)
     n_esc = sum(c.count(ESC) for c, (k, _) in zip(coloured, rows) if k in ("-", "+"))
-    rep.case(key=("bin", case["scheme"], tuple(case["mode"]), sha(repr(rows))[:12]), nontrivial=n_esc > 0,
-             sample=dict(op="binary coloured-vs-plain", scheme=case["scheme"], mode=case["mode"], first_lines=coloured[:8]))
+    rep.case(key=("bin", case["scheme"], tuple(case["mode"]), sha(repr(rows))[:12], git_tag(git), case.get("input")), nontrivial=n_esc > 0,
+             sample=dict(op="binary coloured-vs-plain", scheme=case["scheme"], mode=case["mode"], first_lines=coloured[:8],
+                         **({"git": git, "input": case.get("input")} if git else {})))
     rep.count("binary:scheme=" + case["scheme"])
     rep.count("binary:mode=" + " ".join(case["mode"])[:40])
+    if git:
+        rep.count("binary:color.diff-configured:%s:input=%s" % (git.get("source", "file"), case.get("input")))
     if rc1 != 0 or rc2 != 0 or rc1 != rc2:
         report(rep, "binary:exit-status", f"delta exit status {rc1}/{rc2} on plain/coloured input",
                       dict(kind="binary", sub="default", stderr=(e1 + e2)[-400:].decode("utf-8", "replace"), case=case))
@@ -729,6 +807,8 @@ def binary_case_default(ctx, rep, case):
     d = first_diff_row(o1, o2, raw_ok)
     if d is not None:
         sig = "coloured-vs-plain:" + case["scheme"]
+        if git:   # the input class: which colours the diff carries while color.diff.old/new are configured
+            sig = "coloured-vs-plain:color.diff-configured:%s-colours" % case.get("input")
         if "--max-line-length" in case["mode"] and d and d[1] is not None and d[2] is not None:
             tp, tc = strip_py(d[1]).decode("utf-8", "replace"), strip_py(d[2]).decode("utf-8", "replace")
             if "→" in tp and "→" in tc and len(tc.rstrip()) > len(tp.rstrip()):
@@ -770,9 +850,10 @@ def binary_case_raw(ctx, rep, case):
                           dict(kind="binary", sub="raw", case=case))
             return
         want = {"-": ("p", 1), "+": ("p", 2)}
+        raw_sides = [k for k, o in (("-", "--minus-style"), ("+", "--plus-style")) if o in case["mode"]]
         decoded = [decode_cells(l) for l in o2.split(b"\n")]
         for k, t in rows:
-            if k in ("-", "+") and len(t.strip()) >= 3 and "\t" not in t:
+            if k in raw_sides and len(t.strip()) >= 3 and "\t" not in t:
                 word = t.split()[0]
                 hit = False
                 for cells in decoded:
@@ -815,8 +896,13 @@ def binary_case_moved(ctx, rep, case):
         mapping = f"{case['mapkey']} => {case['mapval']}"
     else:
         mapping = MAP
-    args = ["--no-gitconfig"] + mode + (["--map-styles", mapping, "--true-color", case.get("depth", "always")] if case.get("map") else [])
-    rc, out, err = ctx.run_delta(args, enc_lines(lines))
+    git = case.get("git")
+    if git:   # the unrelated line carries the colour git gives it under that configuration
+        oc = (GIT_SGR_OF[git["old"]] if git.get("old") else "31") if other == "-" else (GIT_SGR_OF[git["new"]] if git.get("new") else "32")
+        lines[7] = sgr(oc if case.get("input") == "configured" else ("31" if other == "-" else "32")) + other + "unrelated" + sgr("")
+    cfg, env, cwd = git_colours_invocation(git)
+    args = cfg + mode + (["--map-styles", mapping, "--true-color", case.get("depth", "always")] if case.get("map") else [])
+    rc, out, err = ctx.run_delta(args, enc_lines(lines), env=env, cwd=cwd)
     want = apply_sgr(Rend(), parse_params(params))
     if case.get("map"):
         # the two mapped styles (equality key: bold + magenta/cyan, named or palette 5/6)
@@ -832,7 +918,7 @@ def binary_case_moved(ctx, rep, case):
             want = Rend(); want.fg = ("p", 1); want.bg = ("r", 0x5f, 0, 0) if deep else ("p", 52)
         elif want.key() == ((True,) + (False,) * 7, ("p", 6), None):
             want = Rend(); want.fg = ("p", 4); want.bg = ("r", 0, 0x5f, 0) if deep else ("p", 22)
-    rep.case(key=("moved", params, kind, form, tuple(mode), bool(case.get("map"))), nontrivial=True,
+    rep.case(key=("moved", params, kind, form, tuple(mode), bool(case.get("map")), git_tag(git)), nontrivial=True,
              sample=dict(op="binary moved-line colours", params=params, line=ml, mode=mode))
     rep.count("binary:moved")
     if rc != 0:
@@ -846,8 +932,10 @@ def binary_case_moved(ctx, rep, case):
         if j >= 0:
             got = {r for _, r in cells[j:j + len(body)]}
             break
+    if git:
+        rep.count("binary:moved:color.diff-configured")
     if got != {want.key()}:
-        report(rep, "moved-colours:" + (("mapped:" + case.get("depth", "always")) if case.get("map") else re.sub(r"\d+", "N", params)[:24]),
+        report(rep, "moved-colours:" + ("color.diff-configured" if git else ("mapped:" + case.get("depth", "always")) if case.get("map") else re.sub(r"\d+", "N", params)[:24]),
                       "a moved-line colour is not shown with exactly the input rendition",
                       dict(kind="binary", sub="moved", want=want.enc(), got=repr(got), case=case))
 
@@ -901,6 +989,108 @@ def binary_case_worddiff(ctx, rep, case):
                dict(kind="binary", sub="worddiff", got=repr(got), case=case))
 
 
+# ------------------------------------------------------------------ model vs binary: the callers of maybe_raw_line
+
+RAWCALLERS_LEAN = r"""
+import DeltaModel.RawLineCallers
+open Ansi
+
+def sgrParams (s : String) : List (List Nat) := (s.splitOn ";").map fun x => [x.toNat!]
+
+def gitColours (o n : String) : GitColors :=
+  (if o == "_" then [] else [("color.diff.old", sgrToStyle (sgrParams o))]) ++
+  (if n == "_" then [] else [("color.diff.new", sgrToStyle (sgrParams n))])
+
+def answer (q : String) : String :=
+  match q.trimAscii.toString.splitOn " " with
+  | [w, i, rm, rz, rp, o, n, c, p] =>
+    let ch : Char := if c == "m" then '-' else if c == "p" then '+' else if c == "z" then ' ' else '\\'
+    let isRaw : Generated.HunkKind → Bool := fun k =>
+      match k with | .minus => rm == "1" | .zero => rz == "1" | .plus => rp == "1"
+    let line : String := (if p == "_" then "" else "\x1b[" ++ p ++ "m") ++ String.singleton ch ++ "word tail\x1b[m"
+    match hunkLineKeepsRaw (w == "1") (i == "1") isRaw (gitColours o n) ch false line.toUTF8.toList with
+    | some true => "kept"
+    | some false => "dropped"
+    | none => "no-hunk-line"
+  | _ => "bad-request"
+
+def main (args : List String) : IO Unit := do
+  match args with
+  | [path] =>
+    for q in (← IO.FS.lines path) do
+      IO.println (answer q)
+  | _ => IO.println "usage"
+"""
+
+
+def corr_raw_callers(ctx, rep):
+    """The executable model of the callers (`Ansi.hunkLineKeepsRaw` over the generated arms of new_line_state and the
+    generated origin of config.git_*_style) against the real binary: is a hunk line that starts with a given SGR
+    sequence kept with its input colouring, for a gitconfig that sets color.diff.old / new or not, each of
+    `--minus/zero/plus-style raw`, `--inspect-raw-lines`, and a word-diff caller? (No hook op reaches
+    new_line_state; the model is run with `lake env lean --run`: there is no registered lean_exe for it.)"""
+    import subprocess
+    from .. import core
+    rng = ctx.rng
+    simple = [(c, p) for c, p in GIT_COLOURS]
+    qs = []
+    for _ in range(ctx.n(70, 1500)):
+        kind = rng.choice("mmppz")
+        old, new = rng.choice([None] + simple), rng.choice([None] + simple)
+        own = {"m": ["31"] + ([old[1]] if old else []), "p": ["32"] + ([new[1]] if new else []), "z": []}[kind]
+        other = {"m": ["32"] + ([new[1]] if new else []), "p": ["31"] + ([old[1]] if old else []), "z": ["31", "32"]}[kind]
+        p = rng.choice(own + own + other + ["1;35", "1;36", "7", "38;5;208", "_"])
+        raws = [rng.random() < 0.15 for _ in range(3)]
+        qs.append(dict(w=rng.random() < 0.08, i=rng.random() < 0.75, raw=raws, old=old, new=new, kind=kind, p=p))
+    if not ctx.lean_ok and not core.lake_build(["DeltaModel.RawLineCallers"])[0]:
+        rep.corr_case("rawline.callers(binary)", False, dict(error="DeltaModel.RawLineCallers does not build"))
+        return
+    work = os.path.join(core.BUILD, "c08-rawcallers-%d" % os.getpid())
+    os.makedirs(work, exist_ok=True)
+    open(os.path.join(work, "Run.lean"), "w").write(RAWCALLERS_LEAN)
+    with open(os.path.join(work, "queries.txt"), "w") as f:
+        for q in qs:
+            f.write(" ".join([str(int(q["w"])), str(int(q["i"]))] + [str(int(b)) for b in q["raw"]] +
+                             [q["old"][1] if q["old"] else "_", q["new"][1] if q["new"] else "_", q["kind"], q["p"]]) + "\n")
+    pr = subprocess.run(["lake", "env", "lean", "--run", os.path.join(work, "Run.lean"), os.path.join(work, "queries.txt")],
+                        cwd=core.LEAN, stdout=subprocess.PIPE, stderr=subprocess.STDOUT, text=True)
+    model = pr.stdout.split("\n")[:len(qs)]
+    if pr.returncode != 0 or len(model) != len(qs) or any(m not in ("kept", "dropped") for m in model):
+        rep.corr_case("rawline.callers(binary)", False, dict(error="model run failed", output=pr.stdout[-600:]))
+        return
+
+    def observe(q):
+        ch = {"m": "-", "p": "+", "z": " "}[q["kind"]]
+        ml = (sgr(q["p"]) if q["p"] != "_" else "") + ch + "word tail" + sgr("")
+        lines = ["diff --git a/m.txt b/m.txt", "index 1..2 100644", "--- a/m.txt", "+++ b/m.txt", "@@ -1,3 +1,3 @@",
+                 " ctx", ml, " ctx2"]
+        git = dict(old=q["old"][0] if q["old"] else None, new=q["new"][0] if q["new"] else None, source="file")
+        cfg, env, cwd = git_colours_invocation(git if (git["old"] or git["new"]) else None)
+        args = cfg + ["--inspect-raw-lines", "true" if q["i"] else "false"]
+        for b, o in zip(q["raw"], ("--minus-style", "--zero-style", "--plus-style")):
+            if b:
+                args += [o, "raw"]
+        if q["w"]:
+            env = dict(env, DELTA_VERIF_FORCE_GUESS="git diff --word-diff")
+        rc, out, err = ctx.run_delta(args, enc_lines(lines), env=env, cwd=cwd)
+        want = apply_sgr(Rend(), parse_params(q["p"])).key() if q["p"] != "_" else Rend().key()
+        for l in out.split(b"\n"):
+            cells = decode_cells(l)
+            txt = "".join(c for c, _ in cells)
+            j = txt.find("word tail")
+            if j >= 0:
+                return "kept" if {r for _, r in cells[j:j + 9]} == {want} else "dropped"
+        return "rc=%s no such line" % rc
+    seen = parallel_map(observe, qs)
+    for q, m, o in zip(qs, model, seen):
+        rep.count("rawline.callers:" + o)
+        rep.case(key=("rawcallers", repr(sorted(q.items(), key=str))), nontrivial=q["p"] != "_",
+                 sample=dict(op="rawline.callers(binary)", query=q, impl=o))
+        rep.corr_case("rawline.callers(binary)", m == o, dict(query=q, impl=o, model=m))
+    import shutil
+    shutil.rmtree(work, ignore_errors=True)
+
+
 def moved_params(rng):
     items = [gen_supported_item(rng) for _ in range(rng.randint(1, 3))]
     return ";".join(items)
@@ -922,6 +1112,39 @@ def binary_cases(ctx):
         for scheme in ("per-line", "per-word", "per-marker"):
             cases.append(("default", dict(rows=rows, scheme=scheme, mode=TRUNC_MODE + rng.choice([[], ["--side-by-side"]]),
                                           cseed=rng.randint(0, 1 << 30))))
+    # a gitconfig that customises git's own colours (color.diff.old / color.diff.new -> config.git_minus_style /
+    # git_plus_style) x input coloured with git's BUILT-IN red/green (the diff was made where that configuration
+    # was not in force: another machine, a saved `git diff --color`, `diff -u --color`) or with the CONFIGURED
+    # colours (delta as git's pager): both are plain removed/added colouring, output = that of the plain diff
+    def rk(c):
+        return apply_sgr(Rend(), parse_params(c)).key()
+
+    def git_cfg(i=None):
+        old = GIT_COLOURS[i][0] if i is not None and i % 2 == 0 else rng.choice([None] + [c for c, _ in GIT_COLOURS])
+        new = GIT_COLOURS[i][0] if i is not None and i % 2 == 1 else rng.choice([None] + [c for c, _ in GIT_COLOURS])
+        if old is None and new is None:
+            old = "red bold"
+        return dict(old=old, new=new, source=rng.choice(GIT_SOURCES))
+    for i in list(range(len(GIT_COLOURS))) + [None] * ctx.n(10, 250):
+        rows = gen_diff(rng)
+        git = git_cfg(i)
+        for inp in ("default", "configured"):
+            for scheme in rng.sample(SCHEMES, ctx.n(1, 2)):
+                cases.append(("default", dict(rows=rows, scheme=scheme, mode=rng.choice(MODES), cseed=rng.randint(0, 1 << 30),
+                                              git=git, input=inp)))
+    # ... and moved-line colours are still shown as they are under such a configuration (a colour that is neither
+    # the built-in nor the configured one of that side; the other side's colours count as moved colours too)
+    for _ in range(ctx.n(24, 600)):
+        git = git_cfg(rng.randrange(len(GIT_COLOURS)) if rng.random() < 0.5 else None)
+        kind = rng.choice("-+")
+        own = [rk("31" if kind == "-" else "32")] + ([rk(GIT_SGR_OF[git["old" if kind == "-" else "new"]])] if git.get("old" if kind == "-" else "new") else [])
+        pool = ["1;35", "1;36", "7", "38;5;208", "32" if kind == "-" else "31", "1;34", "35;1"]
+        if git.get("new" if kind == "-" else "old"):
+            pool.append(GIT_SGR_OF[git["new" if kind == "-" else "old"]])
+        pool += [moved_params(rng) for _ in range(2)]
+        pool = [p for p in pool if rk(p) not in own]
+        cases.append(("moved", dict(params=rng.choice(pool), kind=kind, form=rng.choice(["per-line", "per-marker"]),
+                                    mode=rng.choice(MOVED_MODES[:5]), git=git, input=rng.choice(["default", "configured"]))))
     # moved-line colours: every palette number, every attribute, random RGB / combinations
     singles = [str(n) for n in [1, 2, 3, 4, 5, 7, 8, 9]] + [f"38;5;{n}" for n in range(256)] + [f"48;5;{n}" for n in range(256)]
     singles += [str(n) for n in list(range(30, 38)) + list(range(40, 48)) + list(range(90, 98)) + list(range(100, 108))]
@@ -1015,6 +1238,7 @@ def run(ctx, rep):
     oracle_round_trip(ctx, rep, hook)
     oracle_strip(ctx, rep, hook)
     binary_run(ctx, rep)
+    corr_raw_callers(ctx, rep)
 
 
 def replay(ctx, rep, obj):
